@@ -74,6 +74,9 @@ class C04(Check):
             fastavro.writer(fo, schema, recs, **kw)
             if fo.touched:
                 raise Violation("writer-needs-more-than-write", f"writer touched {sorted(set(fo.touched))} on a write-only non-seekable output")
+            if fo.delivered() != fo.getvalue():
+                # the output buffers like a pipe or socket: what was not flushed when writer() returned never reaches the consumer
+                raise Violation("writer-leaves-bytes-unflushed", f"writer() returned with {len(fo.getvalue()) - len(fo.delivered())} of {len(fo.getvalue())} bytes written but not flushed to the output (sync_interval={interval}, {len(recs)} records)")
             return fo.getvalue()
         if stream == "file":
             with tempfile.TemporaryDirectory(prefix="vc04") as td:
